@@ -37,3 +37,5 @@ pub use lexer::channel::TokenChannel;
 pub use lexer::error;
 pub use lexer::token_type::TokenType;
 pub use lexer::{lex_program, LexResult};
+#[cfg(feature = "verif")]
+pub use lexer::verif;
